@@ -29,7 +29,14 @@ func GetLocalLock(ctx iface.OrdaContext, lockName string) *LocalLock {
 	} else {
 		ctx.L().Infof("[🔒] create lock '%v'", lockName)
 	}
-	return value.(*LocalLock)
+	// The registry keeps the mutex; the returned lock waits on the context of *this* caller. Handing out
+	// the cached object made every later caller wait on the first caller's context, which is cancelled
+	// as soon as that request has returned, so contended TryLocks failed at once instead of waiting.
+	return &LocalLock{
+		ctx:      ctx,
+		mutex:    value.(*LocalLock).mutex,
+		lockName: lockName,
+	}
 }
 
 // TryLock tries to a local lock, and returns true if it succeeds; otherwise false
